@@ -62,6 +62,8 @@ class FLPEnv(RL4COEnvBase):
         n_points_ = chosen.shape[-1]
 
         chosen[torch.arange(batch_size).to(td.device), selected] = True
+        finished = td["i"] >= td["to_choose"]  # already done before this step: padding is a no-op
+        chosen = torch.where(finished.unsqueeze(-1), td["chosen"], chosen)
 
         # We are done if we choose enough locations
         done = td["i"] >= (td["to_choose"] - 1)
@@ -73,16 +75,11 @@ class FLPEnv(RL4COEnvBase):
         orig_distances = td["orig_distances"]  # (batch_size, n_points, n_points)
 
         cur_min_dist = (
-            gather_by_index(
-                orig_distances, chosen.nonzero(as_tuple=True)[1].view(batch_size, -1)
-            )
-            .view(batch_size, -1, n_points_)
-            .min(dim=1)
-            .values
+            orig_distances.masked_fill(~chosen.unsqueeze(-1), float("inf")).min(dim=1).values
         )
 
         # We cannot choose the already-chosen locations
-        action_mask = ~chosen
+        action_mask = ~chosen | done.unsqueeze(-1)
 
         td.update(
             {
@@ -137,11 +134,8 @@ class FLPEnv(RL4COEnvBase):
         n_points_ = td["chosen"].shape[-1]
         orig_distances = td["orig_distances"]
         cur_min_dist = (
-            gather_by_index(
-                orig_distances, chosen.nonzero(as_tuple=True)[1].view(batch_size_, -1)
-            )
-            .view(batch_size_, -1, n_points_)
-            .min(1)
+            orig_distances.masked_fill(~chosen.unsqueeze(-1), float("inf"))
+            .min(dim=1)
             .values.sum(-1)
         )
         return -cur_min_dist
